@@ -9,6 +9,7 @@
 (*   packs      pr1 = <<r1>>   pr2 = <<r2>>      (root trees only, same layout)*)
 (*              pt  = <<t1>>                      (sub-tree pack)            *)
 (*              pd1 = <<d1, d2>>  pd2 = <<d3, d4>> (data; d2, d4 unused; same layout)*)
+(*              pd1c = <<d1>>                     (a second copy of d1)      *)
 (*              pu  = <<d5>>                      (no snapshot needs it)     *)
 (*   one index file listing every pack, blob offsets contiguous.             *)
 (* A blob is read through the index: window (offset, length) of the bytes    *)
@@ -28,25 +29,32 @@
 (***************************************************************************)
 EXTENDS Integers, Sequences, FiniteSets, TLC
 
-CONSTANTS ReadData, ReadRootPacks, VerifyFileHash
+CONSTANTS ReadData, ReadRootPacks, VerifyFileHash,
+          ReadAllCopies   \* read-data reads every pack that holds a used blob, not only the copy its own lookup returned
 
-Packs == {"pr1", "pr2", "pt", "pd1", "pd2", "pu"}
+VARIABLES checkPick, restorePick,       \* the copy of d1 the index of check / of restore resolves to
+          kind, file, other, pos      \* the single fault: kind applied to file (swap: with `other`; blob faults: blob `pos`;
+vars == <<kind, file, other, pos, checkPick, restorePick>>
+
+Packs == {"pr1", "pr2", "pt", "pd1", "pd1c", "pd2", "pu"}
 Snaps == {"s1", "s2"}
 Files == Packs \cup Snaps \cup {"idx"}
 Blobs == [p \in Packs |-> CASE p = "pr1" -> <<"r1">> [] p = "pr2" -> <<"r2">> [] p = "pt" -> <<"t1">>
-                            [] p = "pd1" -> <<"d1", "d2">> [] p = "pd2" -> <<"d3", "d4">> [] OTHER -> <<"d5">>]
-SameLayout(p, q) == {p, q} \subseteq {"pr1", "pr2"} \/ {p, q} \subseteq {"pd1", "pd2"} \/ p = q
+                            [] p = "pd1" -> <<"d1", "d2">> [] p = "pd1c" -> <<"d1">>   \* d1 is stored twice
+                            [] p = "pd2" -> <<"d3", "d4">> [] OTHER -> <<"d5">>]
+SameLayout(p, q) == {p, q} \subseteq {"pr1", "pr2"} \/ {p, q} \subseteq {"pd1", "pd2"} \/ {p, q} \subseteq {"pd1c", "pu"} \/ p = q
 Root == [s \in Snaps |-> IF s = "s1" THEN "r1" ELSE "r2"]
 \* tree content: sub-trees and data blobs referenced
 Sub  == [t \in {"r1", "r2", "t1"} |-> IF t = "r1" THEN {"t1"} ELSE {}]
 Data == [t \in {"r1", "r2", "t1"} |-> CASE t = "t1" -> {"d1"} [] t = "r2" -> {"d3"} [] OTHER -> {}]
-PackOf(b) == CHOOSE p \in Packs : \E i \in DOMAIN Blobs[p] : Blobs[p][i] = b
-PosOf(b) == CHOOSE i \in DOMAIN Blobs[PackOf(b)] : Blobs[PackOf(b)][i] = b
+Holders(b) == {p \in Packs : \E i \in DOMAIN Blobs[p] : Blobs[p][i] = b}
+\* which copy a lookup of d1 returns depends on the order the index files were loaded: `who` is "check" or "restore"
+PackOfFor(b, who) == IF b = "d1" THEN (IF who = "check" THEN checkPick ELSE restorePick) ELSE CHOOSE p \in Holders(b) : TRUE
+PosIn(p, b) == CHOOSE i \in DOMAIN Blobs[p] : Blobs[p][i] = b
 
 Kinds == {"none", "remove", "truncate", "extend", "flip-blob", "flip-header", "flip-length", "flip-envelope", "swap",
           "drop-entry", "dup-entry"}
-VARIABLES kind, file, other, pos      \* the single fault: kind applied to file (swap: with `other`; blob faults: blob `pos`;
-vars == <<kind, file, other, pos>>    \* index entry faults: entry `pos` of pack `other`)
+    \* index entry faults: entry `pos` of pack `other`)
 
 Applicable ==
   CASE kind = "none" -> file = "idx" /\ other = "idx" /\ pos = 1
@@ -60,7 +68,8 @@ Applicable ==
     [] kind = "dup-entry" -> file = "idx" /\ other \in Packs /\ pos = 1
     [] OTHER -> FALSE
 
-Init == kind \in Kinds /\ file \in Files /\ other \in Files /\ pos \in 1 .. 2 /\ Applicable
+Init == /\ kind \in Kinds /\ file \in Files /\ other \in Files /\ pos \in 1 .. 2 /\ Applicable
+        /\ checkPick \in {"pd1", "pd1c"} /\ restorePick \in {"pd1", "pd1c"}
 Next == UNCHANGED vars
 Spec == Init /\ [][Next]_vars
 
@@ -78,7 +87,8 @@ ReadBlob(p, i) ==
   ELSE Blobs[Src(p)][i]
 Indexed(b) == ~(kind = "drop-entry" /\ Blobs[other][pos] = b)
 \* reading blob b the way every command does: through the index
-Get(b) == IF ~Indexed(b) THEN "err" ELSE ReadBlob(PackOf(b), PosOf(b))
+GetFor(b, who) == IF ~Indexed(b) THEN "err" ELSE LET p == PackOfFor(b, who) IN ReadBlob(p, PosIn(p, b))
+Get(b) == GetFor(b, "check")
 
 IndexReadable == Present("idx") /\ ~D("truncate", "idx") /\ ~D("extend", "idx") /\ ~D("flip-envelope", "idx")
 SnapVisible(s) == Present(s)
@@ -89,7 +99,7 @@ SnapContent(s) == IF D("swap", s) THEN other ELSE s   \* which snapshot's conten
 \* the trees and data really reached from snapshot file s; correct iff it is exactly s's own content
 TreeOK(t) ==  \* reading tree id t gives t, and recursively everything below reads as itself
   LET RECURSIVE Ok(_)
-      Ok(x) == Get(x) = x /\ (\A c \in Sub[x] : Ok(c)) /\ (\A d \in Data[x] : Get(d) = d)
+      Ok(x) == GetFor(x, "restore") = x /\ (\A c \in Sub[x] : Ok(c)) /\ (\A d \in Data[x] : GetFor(d, "restore") = d)
   IN Ok(t)
 Restorable(s) == SnapReadable(s) /\ SnapContent(s) = s /\ IndexReadable /\ TreeOK(Root[s])
 AllRestorable == \A s \in Snaps : SnapVisible(s) => Restorable(s)
@@ -104,9 +114,10 @@ TreesRead(s) == {w[2] : w \in {x \in Walked(s) : x[2] # "err"}}
 WalkError(s) ==
   \/ \E w \in Walked(s) : w[2] = "err"
   \/ \E t \in TreesRead(s) : (\E c \in Sub[t] : ~Indexed(c)) \/ (\E d \in Data[t] : ~Indexed(d))
+Copies(b) == IF ReadAllCopies THEN Holders(b) ELSE {PackOfFor(b, "check")}
 UsedPacks(s) ==
-  UNION {{PackOf(c) : c \in Sub[t]} \cup {PackOf(d) : d \in Data[t]} : t \in TreesRead(s)}
-  \cup (IF ReadRootPacks THEN {PackOf(Root[SnapContent(s)])} ELSE {})
+  UNION {UNION {Copies(c) : c \in Sub[t]} \cup UNION {Copies(d) : d \in Data[t]} : t \in TreesRead(s)}
+  \cup (IF ReadRootPacks THEN Copies(Root[SnapContent(s)]) ELSE {})
 PackReadError(p) == \* read-data on pack p: hash of the stored bytes against the name covers every byte
   ~Present(p) \/ ~BytesSame(p)
 
